@@ -201,5 +201,19 @@ CHECKS["C10"] = {
     "note": "depth 2 exhaustive + depth 3 from the deduplicated frontier over a sub-menu (quick) / full menu "
             "(thorough); known finding: subclass override of an Any literal default is shared (upstream #1630)",
 }
+CHECKS["C11"] = {
+    "category": "model_checking",
+    "technique": MC + " (history BFS with dedup on the reference model state; two-dict model of delegation/prototyping)",
+    "text": "DelegatesTo and PrototypedFrom in all four prefix styles (same name, explicit name, 'prefix*', '*' with "
+            "__prefix__) plus a three-level renaming chain; one deferring object, two candidate delegates; every "
+            "history up to depth 4 (5 thorough) over ~60 events (valid/invalid assignment through the deferring "
+            "object, assignment on either delegate, delegate swap, deletion of the local value). After every step "
+            "all reads through both objects must equal a two-dict reference model, DelegatesTo writes must land in "
+            "the delegate only, invalid writes must raise TraitError and change nothing, PrototypedFrom must break "
+            "and restore the link, and on_trait_change/observe handlers of each deferring attribute must be called "
+            "with the new value for target changes on the current delegate while linked and never for former "
+            "delegates or broken links.",
+    "note": "notification on delegate swap unconstrained (statement silent); listenable=True; depth 4/5",
+}
 
 NOT_CLAIMED = {}
